@@ -608,8 +608,89 @@ def r01i(ck, prog):
     ck.floor("R01i", n, 2, "rendering sites")
 
 
+def r01j(ck, prog, root="kalign_run", render_root="finalise_alignment"):
+    """the residue letters are read-only between reading and rendering: in everything kalign_run can reach, elements of
+    msa_seq.seq are stored only by the rendering step (finalise_alignment / make_linear_sequence install a new row) - the
+    conversion to internal codes writes msa_seq.s, never the letters themselves"""
+    from ..callgraph import CallGraph
+    from ..model import access_mode
+    cg = CallGraph(prog)
+    reach = cg.reachable({root})
+    render = cg.reachable({render_root}) | {render_root}
+    n = 0
+    for name in sorted(reach):
+        F = cg.defined.get(name)
+        if F is None or F.body is None:
+            continue
+        for sub in F.body.find("ArraySubscriptExpr"):
+            m = sub.kids[0].strip(casts=True)
+            if not (m.k == "MemberExpr" and m.d.get("field") == "seq" and m.d.get("rec") == "msa_seq"):
+                continue
+            if access_mode(sub) not in ("write", "rmw"):
+                continue
+            n += 1
+            where = site(prog, sub, "seq[...] store")
+            ck.inst("R01j", where, "%s stores into msa_seq.seq elements (%s)" % (name, "rendering" if name in render else "NOT rendering"), prog.config)
+            if name not in render:
+                ck.violation("R01j", "R01j/%s/seq-store" % name, where,
+                             "%s, which kalign_run reaches before the rows are rendered, overwrites letters of msa_seq.seq: the row that comes "
+                             "back no longer carries the input residues at those positions" % name, prog.config)
+    ck.info("R01j", "%d store(s) into msa_seq.seq elements in the functions kalign_run reaches" % n)
+
+
+def _r01j_control(ck):
+    from ..controls import control_program
+    from ..report import Check
+    cp = control_program(ck.work, "c01.c")
+    sub = Check(ck.prop, ck.tier, ck.seed)
+    sub.known = {}
+    r01j(sub, cp, root="ctl_run", render_root="ctl_render")
+    keys = {v["key"] for v in sub.violations}
+    ck.control("R01j", "bad_r01j_overwrites_letters", "R01j/bad_r01j_overwrites_letters/seq-store" in keys, True)
+    ck.control("R01j", "ok_r01j_codes_only", any("ok_r01j" in k for k in keys), False)
+
+
+def r01k(ck, prog):
+    """rows leave in input order: after kalign_run has restored the input order (msa_sort_rank is its last step), nothing that
+    can reach qsort runs on the way to the export (kalign_msa_to_arr / kalign_write_msa) in the functions that call both"""
+    from ..callgraph import CallGraph
+    cg = CallGraph(prog)
+    sorters = {n_ for n_ in cg.defined if "qsort" in cg.reachable({n_}) or n_ == "qsort"}
+    n = 0
+    for F in prog.all_functions:
+        if F.body is None or F.cfg is None or "/tests/" in F.file:
+            continue
+        runs = list(F.body.calls("kalign_run"))
+        exports = [c for c in F.body.calls() if c.callee in ("kalign_msa_to_arr", "kalign_write_msa")]
+        if not runs or not exports:
+            continue
+        cfg = F.cfg
+        for r in runs:
+            for e in exports:
+                pr, pe = cfg.position(r), cfg.position(e)
+                if pr is None or pe is None or not cfg.reaches(pr, pe):
+                    continue
+                n += 1
+                where = site(prog, e, "export after kalign_run")
+                between = []
+                for c in F.body.calls():
+                    if c is r or c is e or not c.callee or c.callee not in sorters:
+                        continue
+                    pc = cfg.position(c)
+                    if pc is not None and cfg.reaches(pr, pc) and cfg.reaches(pc, pe):
+                        between.append(c)
+                ck.inst("R01k", where, "%s: between kalign_run and %s: %s" % (F.name, e.callee, [c.callee for c in between] or "no sorting call"), prog.config)
+                for c in between:
+                    ck.violation("R01k", "R01k/%s/%s" % (F.name, c.callee), site(prog, c, c.callee),
+                                 "%s calls %s (which sorts the sequences) after kalign_run has put them back into input order and before "
+                                 "%s exports them: row i is no longer input sequence i" % (F.name, c.callee, e.callee), prog.config)
+    ck.floor("R01k", n, 2, "run-then-export sites")
+
+
 def run(ck, progs):
     describe(ck)
+    ck.rule("R01j", "between reading and rendering nothing kalign_run reaches stores into elements of msa_seq.seq")
+    ck.rule("R01k", "no sorting call between kalign_run and the export of the rows in the functions that call both")
     ck.rule("R01i", "finalise_alignment renders all numseq sequences; make_linear_sequence writes the gaps[j] dashes before residue j")
     ck.rule("R01h", "no length-capped copy of a sequence name from one record into another is reachable from the API functions")
     ck.rule("R01g", "path -> gap counts: make_seq's two new-gap vectors never overlap and are int wide, update_gaps only adds sums of their entries (= R10e, R10b)")
@@ -625,6 +706,9 @@ def run(ck, progs):
         ck.attempt(r01g, ck, prog)
         ck.attempt(r01h, ck, prog)
         ck.attempt(r01i, ck, prog)
+        ck.attempt(r01j, ck, prog)
+        ck.attempt(_r01j_control, ck)
+        ck.attempt(r01k, ck, prog)
     return ("CFG must-pass-through / precedence for the six pipeline stages of kalign_run and the three of kalign(); "
             "who-may-read/write table for msa_seq.rank over every function; provenance of every store into a row buffer "
             "and every residue print in the functions reachable from the exporters; status gate reachability and "
